@@ -87,23 +87,33 @@ module.exports = function (repo, loadPrelude) {
       src += compileFunc(i, k === 'n', (b || '').split(','));
     });
     // the goroutine is started by the REAL $go / $schedule / $goroutine (goroutines.js:128-167)
-    src += ' return function() {\n' +
+    src += ' return function($$depth) {\n' +
       '  var g = null, out, done = false;\n' +
       '  $panicStackDepth = null; $stackDepthOffset = 0; $curGoroutine = $noGoroutine; $scheduled.length = 0;\n' +
-      '  try { $go(function() { g = $curGoroutine; F[0](0, {v: 0}); done = true; }, []); out = done ? "normal" : "goexit"; }\n' +
+      '  var DEEP = function DEEP(n) { if (n > 0) { DEEP(n - 1); return; } F[0](0, {v: 0}); };\n' +
+      '  try { $go(function() { g = $curGoroutine; DEEP($$depth); done = true; }, []); out = done ? "normal" : "goexit"; }\n' +
       '  catch (err) { if (err instanceof Error) { out = "panic" + err.message; } else if (err === null) { out = "stuck1"; } else { out = "stuck?" + String(err); } }\n' +
       '  finally { $curGoroutine = $noGoroutine; }\n' +
       '  return { trace: T, out: out, state: "off=" + $stackDepthOffset + " psd=" + $panicStackDepth + " ps=" + g.panicStack.length + " ds=" + g.deferStack.length };\n' +
       ' };\n})()';
     return P(src);
   }
+  let probe = null;
   return function (a) {
     switch (a[0]) {
-      case 'emu': case 'ref': {
-        const r = compile(a[1])();
+      case 'emuat': {
+        const r = compile(a[2])(Number(a[1]));
         return (r.trace.length ? r.trace.join(',') : '-') + ' ' + r.out;
       }
-      case 'emustate': return compile(a[1])().state;
+      case 'depthprobe': { // $getStackDepth() at nested call depth d minus the reading at depth 0
+        if (!probe) probe = P('(function() { var rec = function(n) { if (n > 0) { return rec(n - 1); } return $getStackDepth(); }; return rec; })()');
+        return String(probe(Number(a[1])) - probe(0));
+      }
+      case 'emu': case 'ref': {
+        const r = compile(a[1])(0);
+        return (r.trace.length ? r.trace.join(',') : '-') + ' ' + r.out;
+      }
+      case 'emustate': return compile(a[1])(0).state;
     }
     return 'bad-op';
   };
